@@ -296,16 +296,34 @@ func genC03Call(rt *rapid.T, pm *plainModel) sim.Call {
 		case 1:
 			return sim.Call{M: "Get", Pos: genIntArg(rt, "pos", size)}
 		case 2:
+			if size >= 2 && rapid.Bool().Draw(rt, "fit") {
+				pos := rapid.IntRange(0, size-2).Draw(rt, "fitpos")
+				return sim.Call{M: "GetMany", Pos: pos, N: rapid.IntRange(2, size-pos).Draw(rt, "fitn")}
+			}
 			return sim.Call{M: "GetMany", Pos: genIntArg(rt, "pos", size), N: genIntArg(rt, "n", size)}
 		case 3, 4, 5:
 			return sim.Call{M: "Insert", Pos: genIntArg(rt, "pos", size), Vals: []sim.Val{genC03Val(rt, "val")}}
 		case 6, 7, 8:
 			return sim.Call{M: "InsertMany", Pos: genIntArg(rt, "pos", size), Vals: genC03Batch(rt, "vals")}
 		case 9, 10:
+			if size >= 2 && rapid.Bool().Draw(rt, "fit") {
+				// a batch that fits, so that ranges crossing earlier deletions / updates are reached
+				pos := rapid.IntRange(0, size-2).Draw(rt, "fitpos")
+				cnt := rapid.IntRange(2, minInt(size-pos, 4)).Draw(rt, "fitn")
+				vs := make([]sim.Val, 0, cnt)
+				for i := 0; i < cnt; i++ {
+					vs = append(vs, genC03Val(rt, fmt.Sprintf("fit.%d", i)))
+				}
+				return sim.Call{M: "Update", Pos: pos, Vals: vs}
+			}
 			return sim.Call{M: "Update", Pos: genIntArg(rt, "pos", size), Vals: genC03Batch(rt, "vals")}
 		case 11:
 			return sim.Call{M: "Delete", Pos: genIntArg(rt, "pos", size)}
 		default:
+			if size >= 2 && rapid.Bool().Draw(rt, "fit") {
+				pos := rapid.IntRange(0, size-2).Draw(rt, "fitpos")
+				return sim.Call{M: "DeleteMany", Pos: pos, N: rapid.IntRange(2, size-pos).Draw(rt, "fitn")}
+			}
 			return sim.Call{M: "DeleteMany", Pos: genIntArg(rt, "pos", size), N: genIntArg(rt, "n", size)}
 		}
 	}
@@ -471,9 +489,11 @@ func testC03(t *testing.T, kind sim.Kind) {
 		m := &c03Machine{kind: kind, w: sim.NewWorld(kind, 1, 1), pm: newPlainModel(kind), col: col}
 		if kind == sim.Document {
 			m.pm.doc.bind(m.w.Reps[0].DT)
+			m.pm.doc.focus = rapid.IntRange(0, 3).Draw(c.rt, "arrayfocus") == 0
 		}
 		c.j.Header = map[string]interface{}{"kind": kind, "id_seed": idseed}
 		n := rapid.IntRange(1, envInt("VERIF_C03_STEPS", 80)).Draw(c.rt, "steps")
+		holes0 := c03BatchOverHole
 		var canon strings.Builder
 		for i := 0; i < n; i++ {
 			if rapid.IntRange(0, 9).Draw(c.rt, "istx") == 0 {
@@ -541,7 +561,7 @@ func testC03(t *testing.T, kind sim.Kind) {
 			var a c03Action
 			var res sim.Result
 			var emitted int
-			if kind == sim.Document && rapid.IntRange(0, 2).Draw(c.rt, "viahandle") > 0 {
+			if kind == sim.Document && !m.pm.doc.focus && rapid.IntRange(0, 2).Draw(c.rt, "viahandle") > 0 {
 				// handle-based call (c03doc_test.go)
 				hc := m.pm.doc.genHandleCall(c.rt)
 				c.j.add(hc)
@@ -572,6 +592,9 @@ func testC03(t *testing.T, kind sim.Kind) {
 		}
 		if m.readAfterDelete {
 			labels = append(labels, "read-after-delete")
+		}
+		if c03BatchOverHole > holes0 {
+			labels = append(labels, "batch-update-of-array-with-inner-deletion")
 		}
 		col.Case(m.invalidAfter3 && m.readAfterDelete, string(kind)+canon.String(), labels, func() interface{} {
 			return map[string]interface{}{"kind": kind, "calls": canon.String()}
